@@ -92,7 +92,20 @@ def model_runs(ctx, rnd):
     ]
     for i, s in enumerate(sims[:1] if q else sims):
         ctx.tlc("EdgeQuery", model_cfg(*s, []), workers=1 if q else 4,
-                simulate="num=%d" % ((150, 60)[i] if q else 6000), depth=60, seed=ctx.seed * 10 + i, timeout=1800)
+                simulate="num=%d" % ((100, 60)[i] if q else 6000), depth=60, seed=ctx.seed * 10 + i, timeout=1800)
+    # (b') the early-termination sweep in the abstract model: one queued cell (>= MinEnq edges) next to
+    # cells scanned at once, a target that uses MaxError, every distance/bound/error combination:
+    # the conservative cell distance keeps the result within MaxError; exhaustive
+    sweep = ([1, 2], 0, 2, 2, 3, 2 if q else 3, 0, [1, 2], [INF], [1] if q else [1, 2], [False], 2, 1, 1)
+    ctx.tlc("EdgeQuery", model_cfg(*sweep, []), workers=4 if q else 10, timeout=900)
+    r = ctx.tlc("EdgeQuery", model_cfg(*sweep, ["nocons"]), workers=4 if q else 10, timeout=900, allow_violation=True,
+                count=False)
+    inv = [m.group(1) for ln in r.lines for m in [re.match(r"Error: Invariant (\w+) is violated", ln)] if m]
+    if r.ok or not inv:
+        raise vlib.Infra('EdgeQuery.tla with AsImplemented={"nocons"} produced no counterexample')
+    ctx.notes.append('model level: AsImplemented={"nocons"} (conservative cell distance off on an unlimited search, '
+                     'seeded change C08-seed2) violates %s (TLC counterexample found)' % inv[0])
+    ctx.counters["model_defect_confirmed_nocons"] = 1
     # (c) the behaviour of the pinned tree before the fix: commits e6edaf0, 3d5e407, 38223d4, 8676a07,
     # transcribed: TLC itself must find the counterexamples (regression models; they show that the
     # invariants are sensitive to exactly these defects)
@@ -104,6 +117,25 @@ def model_runs(ctx, rnd):
             raise vlib.Infra("EdgeQuery.tla with AsImplemented={%s} produced no counterexample" % tag)
         ctx.notes.append('model level: AsImplemented={"%s"} violates %s (TLC counterexample found)' % (tag, inv[0]))
         ctx.counters["model_defect_confirmed_" + tag] = 1
+
+
+K_DEFAULTS = {"KLevel": 6, "KIC": 1, "KJC": 1, "KSize": 10, "KA1": {1}, "KA0D": {1}, "KRA": {1}}
+
+
+def w3_family(rnd, big):
+    """Isolated clusters (see Gen_EdgeQuery W3): TLC enumerates the step counts."""
+    lvl = rnd.choice([7, 8, 9, 10])
+    n = 2 ** lvl
+    a = rnd.randint(4, 9)
+    ka1 = {a, a + rnd.randint(1, 3)} if big else {a}
+    d = {"N": 1, "PointIdx": set(), "LineSets": "{}", "TriSets": "{}", "TgtPts": set(), "TgtEdges": "{}",
+         "TgtClouds": "{}", "TgtLines": "{}", "TgtFaces": set(), "LimPairs": "{}",
+         "GLevel": 3, "GRectCodes": set(), "GRowCodes": set(), "GTgtCodes": set(), "GCloudCodes": "{}",
+         "KLevel": lvl, "KIC": n - max(ka1) - rnd.randint(1, 2), "KJC": n // 2 + rnd.randint(-n // 8, n // 8),
+         "KSize": rnd.choice([10, 10, 12]), "KA1": ka1,
+         "KA0D": set(rnd.sample(range(1, 5), 3 if big else 2)),
+         "KRA": set(rnd.sample(range(1, 13), 6 if big else 4))}
+    return d
 
 
 def w1_scene(rnd, n, nfaces, npts, nlines, ntris, big):
@@ -147,6 +179,7 @@ def w1_scene(rnd, n, nfaces, npts, nlines, ntris, big):
         "TgtClouds": tla_set_of_sets([S(c) for c in clouds]), "TgtLines": tla_set_of_sets([S(l) for l in tlines]),
         "TgtFaces": set(rnd.sample(range(6), 1) + faces[:1]), "LimPairs": tla_set_of_sets([S(l) for l in lim]),
         "GLevel": 3, "GRectCodes": set(), "GRowCodes": set(), "GTgtCodes": set(), "GCloudCodes": "{}",
+        **K_DEFAULTS,
     }
 
 
@@ -193,7 +226,7 @@ def w2_scene(rnd, g, nfaces, rows, bundle=False, nclouds=2):
         "N": 1, "PointIdx": set(), "LineSets": "{}", "TriSets": "{}", "TgtPts": set(), "TgtEdges": "{}",
         "TgtClouds": "{}", "TgtLines": "{}", "TgtFaces": set(), "LimPairs": "{}",
         "GLevel": g, "GRectCodes": rects, "GRowCodes": rws, "GTgtCodes": tg,
-        "GCloudCodes": tla_set_of_sets(clouds),
+        "GCloudCodes": tla_set_of_sets(clouds), **K_DEFAULTS,
     }
 
 
@@ -211,12 +244,16 @@ def run(ctx):
         "distances of the same edge from the optimized and the brute-force path are compared for float equality (same "
         "function, same arguments); index targets are compared with an exhaustive scan on both levels (hook "
         "VerifTargetSetUseBruteForce)",
-        "maxError clause: d_i <= scan_i + maxError asserted directly on s1.Angle values with 1e-12 rad slack (TLC has no "
-        "reals; the relation is the model's ResultsComplete)",
+        "maxError clause: d_i <= scan_i + maxError (furthest: >= scan_i - maxError) asserted directly on the "
+        "s1.ChordAngle values (the arithmetic of distance.sub; implies the same relation on angles), slack 1e-14 (TLC "
+        "has no reals; the relation is the model's ResultsComplete)",
         "the abstract model treats closest and furthest queries alike (the distance interface is an order with zero, "
         "infinity and sub); furthest expectations in W1 are the closest expectations of the negated target",
         "query objects are fresh per call: history dependence (Distance/IsDistanceLess mutating the query's options) is "
         "property C13, not judged here",
+        "W3 (isolated clusters): MaxError is swept over values chosen from the distance gaps of the scene as measured by "
+        "exhaustive scans of the code; the floats only select inputs, the verdict is the maxError relation against the "
+        "exhaustive exact scan, on s1.ChordAngle values (the library's own distance arithmetic), slack 1e-14",
         "cell targets: model expectation only for level-0 cells (zero distance iff an endpoint is strictly inside the face); "
         "other cell targets are checked optimized-vs-brute only",
     ]
@@ -248,6 +285,11 @@ def run(ctx):
         consts = w2_scene(rnd, g, nf, rows, bundle, nclouds=3 if q else 12)
         r = ctx.tlc("Gen_EdgeQuery", vlib.cfg(init="InitW2", next_="NextW2", constants=consts,
                                               invariants=["EmitW2", "GridLoopsSimple"]), workers=4, timeout=600)
+        cases += r.tagged.get("CASE", [])
+    # W3: isolated clusters, MaxError swept over the gaps of the scene (early termination of the search)
+    for _ in range(1 if q else 6):
+        r = ctx.tlc("Gen_EdgeQuery", vlib.cfg(init="InitW3", next_="NextW3", constants=w3_family(rnd, True),
+                                              invariants=["EmitW3"]), workers=4, timeout=600)
         cases += r.tagged.get("CASE", [])
     ctx.log("cases: %d" % len(cases))
     ctx.replay(cases, timeout=2400)
